@@ -47,6 +47,11 @@ def build(need_cli, race):
         rc, txt = run(["go", "build", "-tags", "verif", "-o", os.path.join(BUILD, "gotree"), "."], REPO)
         if rc != 0:
             return "go build gotree failed:\n" + txt[-3000:]
+        if race:
+            # the shipped command itself under the race detector (its own goroutines: readers, printers, worker pools)
+            rc, txt = run(["go", "build", "-race", "-tags", "verif", "-o", os.path.join(BUILD, "gotree.race"), "."], REPO)
+            if rc != 0:
+                return "go build -race gotree failed:\n" + txt[-3000:]
     return None
 
 
@@ -101,7 +106,7 @@ class Runner:
         while cur < b:
             wd = tempfile.mkdtemp(prefix="w", dir=self.tmp)
             outp, errp = os.path.join(wd, "out"), os.path.join(wd, "err")
-            env = dict(GOENV, VERIF_GOTREE=os.path.join(BUILD, "gotree"), VERIF_TMP=wd, VERIF_REPO=REPO,
+            env = dict(GOENV, VERIF_GOTREE=os.path.join(BUILD, "gotree"), VERIF_TMP=wd, VERIF_REPO=REPO, VERIF_GOTREE_RACE=os.path.join(BUILD, "gotree.race"),
                        GORACE="halt_on_error=0 log_path=%s" % os.path.join(wd, "race"), GOTRACEBACK="all")
             cmd = [self.exe, "-prop", self.prop, "-tier", self.tier, "-seed", str(self.seed),
                    "-from", str(cur), "-to", str(b)]
